@@ -31,6 +31,8 @@ COMM_DICT = [
     b"PPid:\t77", b"Pss:", b"ctxt_switches:\t5",
     b"\nUid:\t1\t2\t3", b"\xc3\xa9", b"\xe2\x82\xac", b"\xff", b"\x80",
     b"\xc3", b"S", b"Z", b"0", b"1 2", b"%d", b"%s",
+    # other line separators (the kernel escapes only \n and \\ in status)
+    b"\r", b"\rThreads:\t99", b"x\rPPid:\t1", b"\rUid:\t5\t5\t5\t5", b"\x0b", b"\x0c", b"\x1c", b"\x85",
 ]
 
 
